@@ -107,6 +107,7 @@ func (u *semaUni) auths() []namedAuth {
 		{"conj(Gg,H)", set(sema.Conjunction, "C.Gg", "C.H"), set(sema.Conjunction, "C.H", "C.Gg")},
 		{"disj(E,H)", set(sema.Disjunction, "C.E", "C.H"), set(sema.Disjunction, "C.H", "C.E")},
 		{"disj(Gg,H,E)", set(sema.Disjunction, "C.Gg", "C.H", "C.E"), set(sema.Disjunction, "C.E", "C.Gg", "C.H")},
+		{"disj(E)", set(sema.Disjunction, "C.E"), nil},
 	}
 }
 
